@@ -288,3 +288,81 @@ Proof.
   - reflexivity.
   - vm_compute. intro H. discriminate H.
 Qed.
+
+(* ---------- bodies that import while they run, without reaching their own module ---------- *)
+
+(* no import event names a module that an enclosing event is loading *)
+Fixpoint noreentry (loading : list nat) (e : iev) : Prop :=
+  match e with
+  | IEv i _ body =>
+      ~ In i loading /\
+      (fix all (l : list iev) : Prop := match l with [] => True | x :: r => noreentry (i :: loading) x /\ all r end) body
+  end.
+
+Definition ev_module (e : iev) : nat := match e with IEv i _ _ => i end.
+
+Definition nested_ok (L : list nat) (s s' : tstate) (e : iev) (v : option Z) : Prop :=
+  cache_ok (proj s') /\
+  (forall j x, nth_error (t_cache s) j = Some (Some x) -> nth_error (t_cache s') j = Some (Some x)) /\
+  (forall j, In j L -> nth_error (t_cache s') j = nth_error (t_cache s) j) /\
+  (forall x, v = Some x -> nth_error (t_cache s') (ev_module e) = Some (Some x)).
+
+Lemma exec_nested_ok fuel : forall L e s s' v,
+  cache_ok (proj s) -> noreentry L e -> exec_nested fuel s e = (s', v) -> nested_ok L s s' e v.
+Proof.
+  induction fuel as [|f IH]; intros L e s s' v Hok Hn H; cbn [exec_nested] in H.
+  - inversion H; subst. unfold nested_ok. split; [exact Hok|]. split; [auto|]. split; [auto|]. intros x Hx; discriminate.
+  - destruct e as [i th body]. cbn [ev_module]. cbn [noreentry] in Hn. destruct Hn as [HiL Hbody].
+    destruct (nth_error (t_cache s) i) as [[x|]|] eqn:E.
+    + inversion H; subst. unfold nested_ok. split; [exact Hok|]. split; [auto|]. split; [auto|]. intros y Hy. inversion Hy; subst. exact E.
+    + (* the body runs *)
+      set (s1 := {| t_cache := t_cache s; t_runs := t_runs s ++ [Z.of_nat i]; t_done := t_done s |}) in *.
+      assert (Hok1 : cache_ok (proj s1)) by exact Hok.
+      (* the events of the body, one after the other *)
+      assert (Hfold : forall bl st,
+                 (fix all (l : list iev) : Prop := match l with [] => True | x :: r => noreentry (i :: L) x /\ all r end) bl ->
+                 cache_ok (proj st) ->
+                 let st' := fold_left (fun st0 ev => fst (exec_nested f st0 ev)) bl st in
+                 cache_ok (proj st') /\
+                 (forall j x, nth_error (t_cache st) j = Some (Some x) -> nth_error (t_cache st') j = Some (Some x)) /\
+                 (forall j, In j (i :: L) -> nth_error (t_cache st') j = nth_error (t_cache st) j)).
+      { induction bl as [|b bl IHb]; intros st Hall Hst; cbn [fold_left].
+        - split; [exact Hst | split; [intros j x Hj; exact Hj | intros j Hj; reflexivity]].
+        - destruct Hall as [Hb Hall].
+          destruct (exec_nested f st b) as [stb vb] eqn:Eb. cbn [fst].
+          destruct (IH _ _ _ _ _ Hst Hb Eb) as (Hokb & Hmonb & Hunb & _).
+          destruct (IHb stb Hall Hokb) as (Hok' & Hmon' & Hun').
+          split; [exact Hok'|]. split.
+          + intros j x Hj. apply Hmon'. apply Hmonb. exact Hj.
+          + intros j Hj. rewrite (Hun' j Hj). apply Hunb. exact Hj. }
+      destruct (Hfold body s1 Hbody Hok1) as (Hok2 & Hmon2 & Hun2).
+      set (s2 := fold_left (fun st0 ev => fst (exec_nested f st0 ev)) body s1) in *.
+      destruct th.
+      * inversion H; subst. unfold nested_ok. split; [exact Hok2|]. split; [exact Hmon2|]. split.
+        -- intros j Hj. apply (Hun2 j). right. exact Hj.
+        -- intros x Hx; discriminate.
+      * inversion H; subst; clear H.
+        (* the store is the atomic import of the model above, on the state after the body *)
+        assert (E2 : nth_error (cache (proj s2)) i = Some None).
+        { unfold proj. cbn [cache]. rewrite (Hun2 i (or_introl eq_refl)). exact E. }
+        pose proof (exec_import_ok (proj s2) i) as Himp.
+        unfold exec_import in Himp. rewrite E2 in Himp.
+        specialize (Himp _ _ Hok2 eq_refl). cbn [proj cache execs] in Himp.
+        destruct Himp as (Hok3 & _ & Hv3 & Hmon3).
+        unfold nested_ok. cbn [t_cache]. split; [exact Hok3|]. split; [|split].
+        -- intros j x Hj. apply Hmon3. apply Hmon2. exact Hj.
+        -- intros j Hj. assert (i <> j) by (intro; subst; contradiction).
+           rewrite nth_error_set_nth_other by assumption. apply (Hun2 j). right. exact Hj.
+        -- intros x Hx. apply Hv3. exact Hx.
+    + inversion H; subst. unfold nested_ok. split; [exact Hok|]. split; [auto|]. split; [auto|]. intros y Hy; discriminate.
+Qed.
+
+(* with bodies that import (other modules) while they run, and whichever bodies throw: a body returns at most
+   once per module *)
+Theorem nested_body_completes_at_most_once fuel n e s v :
+  noreentry [] e -> exec_nested fuel (init_tstate n) e = (s, v) -> NoDup (t_done s).
+Proof.
+  intros Hn H.
+  destruct (exec_nested_ok fuel [] e _ _ _ (cache_ok_init n : cache_ok (proj (init_tstate n))) Hn H) as ((Hnd & _) & _).
+  exact Hnd.
+Qed.
